@@ -355,14 +355,31 @@ def widthSum {G : Type} (width : G → Nat) : List G → Nat
   | [] => 0
   | g :: gs => width g + widthSum width gs
 
+/-- Display width of a grapheme drawn as characters of widths `ws`. -/
+def sumW : List Nat → Nat
+  | [] => 0
+  | w :: ws => w + sumW ws
+
+/-- Display width of a grapheme: the total width of the characters it is drawn as. -/
+def cellWidth {G : Type} (chars : G → List Nat) (g : G) : Nat := sumW (chars g)
+
+theorem drawChars_eq (ws : List Nat) : ∀ c : Nat, drawChars ws (UInt16.ofNat c) = UInt16.ofNat (c + sumW ws) := by
+  induction ws with
+  | nil => intro c; simp [drawChars, sumW]
+  | cons w ws ih =>
+    intro c
+    have := ih (c + w)
+    simp only [drawChars, List.foldl_cons, sumW] at this ⊢
+    rw [← UInt16.ofNat_add, this, Nat.add_assoc]
+
 /-- The `Draw` loop, started at grapheme index `i` in column `ofNat c`, ends in column
 `ofNat (c + widthSum l)`, and its cursor column is the column reached after `cursor - i` graphemes if
 the cursor lies in `(i, i + l.length]`. -/
-theorem drawLoop_eq {G : Type} (width : G → Nat) (cursor : Nat) :
+theorem drawLoop_eq {G : Type} (chars : G → List Nat) (cursor : Nat) :
     ∀ (l : List G) (i c : Nat) (cur : UInt16),
-    drawLoop width cursor l i (UInt16.ofNat c) cur =
-      (i + l.length, UInt16.ofNat (c + widthSum width l),
-        if i < cursor ∧ cursor ≤ i + l.length then UInt16.ofNat (c + widthSum width (l.take (cursor - i))) else cur) := by
+    drawLoop chars cursor l i (UInt16.ofNat c) cur =
+      (i + l.length, UInt16.ofNat (c + widthSum (cellWidth chars) l),
+        if i < cursor ∧ cursor ≤ i + l.length then UInt16.ofNat (c + widthSum (cellWidth chars) (l.take (cursor - i))) else cur) := by
   intro l
   induction l with
   | nil =>
@@ -374,9 +391,10 @@ theorem drawLoop_eq {G : Type} (width : G → Nat) (cursor : Nat) :
     intro i c cur
     unfold drawLoop
     simp only []
-    rw [← UInt16.ofNat_add, ih (i + 1) (c + width g)]
+    rw [drawChars_eq, ih (i + 1) (c + sumW (chars g))]
     have e1 : i + 1 + gs.length = i + (g :: gs).length := by simp; omega
-    have e2 : c + width g + widthSum width gs = c + widthSum width (g :: gs) := by simp [widthSum]; omega
+    have e2 : c + sumW (chars g) + widthSum (cellWidth chars) gs = c + widthSum (cellWidth chars) (g :: gs) := by
+      simp [widthSum, cellWidth]; omega
     rw [e1, e2]
     congr 2
     by_cases h1 : i + 1 = cursor
@@ -384,22 +402,22 @@ theorem drawLoop_eq {G : Type} (width : G → Nat) (cursor : Nat) :
       have hc2 : i < cursor ∧ cursor ≤ i + (g :: gs).length := by simp; omega
       have h3 : cursor - i = 1 := by omega
       rw [if_neg hc1, if_pos hc2, if_pos h1, h3]
-      simp [widthSum]
+      simp [widthSum, cellWidth]
     · by_cases h2 : i + 1 < cursor ∧ cursor ≤ i + (g :: gs).length
       · have hc2 : i < cursor ∧ cursor ≤ i + (g :: gs).length := by omega
         have h3 : cursor - i = (cursor - (i + 1)) + 1 := by omega
         rw [if_pos h2, if_pos hc2, h3, List.take_succ_cons]
-        simp only [widthSum, Nat.add_assoc]
+        simp only [widthSum, cellWidth, Nat.add_assoc]
       · have hc2 : ¬ (i < cursor ∧ cursor ≤ i + (g :: gs).length) := by omega
         rw [if_neg h2, if_neg hc2, if_neg h1]
 
 /-- `cursor_column` (TextField): the cursor column computed by `Draw` is the display width of the
 text before the cursor (as a `uint16`, like every column in vxfw). -/
-theorem drawCursorCol_eq {G : Type} (width : G → Nat) (tf : TF G) :
-    drawCursorCol width tf = UInt16.ofNat (widthSum width (tf.value.take tf.cursor)) := by
+theorem drawCursorCol_eq {G : Type} (chars : G → List Nat) (tf : TF G) :
+    drawCursorCol chars tf = UInt16.ofNat (widthSum (cellWidth chars) (tf.value.take tf.cursor)) := by
   unfold drawCursorCol
   have h0 : (0 : UInt16) = UInt16.ofNat 0 := rfl
-  have := drawLoop_eq width tf.cursor tf.value 0 0 (UInt16.ofNat 0)
+  have := drawLoop_eq chars tf.cursor tf.value 0 0 (UInt16.ofNat 0)
   simp only [Nat.zero_add, Nat.sub_zero] at this
   rw [h0, this]
   simp only
